@@ -115,6 +115,9 @@ class FnTranslator:
                         attrs[a] = V([S(f'{name}_{a}_{i}') for i in range(4)]); names += [f'{name}_{a}_{i}' for i in range(4)]
                     elif k == 'int':
                         attrs[a] = S(f'{name}_{a}'); names.append(f'{name}_{a}')
+                    elif isinstance(k, tuple) and k[0] == 'vec' and isinstance(k[1], int) and k[1] > 0:
+                        # fixed-length integer tuple attribute (e.g. the shape of a cube)
+                        attrs[a] = V([S(f'{name}_{a}_{i}') for i in range(k[1])]); names += [f'{name}_{a}_{i}' for i in range(k[1])]
                     else: raise Refuse(f'attr kind {k}')
                 env[name] = Obj(attrs)
             elif isinstance(kind, tuple) and kind[0] == 'const':
@@ -219,6 +222,11 @@ class FnTranslator:
             if isinstance(idx, ast.UnaryOp) and isinstance(idx.op, ast.USub) and isinstance(idx.operand, ast.Constant):
                 k = -idx.operand.value
             elif isinstance(idx, ast.Constant) and isinstance(idx.value, int): k = idx.value
+            elif isinstance(idx, (ast.BinOp, ast.Name)):
+                # index expression that folds to a literal (e.g. `0+offset` with `offset` specialised to a constant)
+                kv = self.expr(idx, env)
+                if not isinstance(kv, S) or kv.const is None: raise Refuse('subscript must fold to an integer literal')
+                k = kv.const
             else: raise Refuse('subscript must be an integer literal')
             if not isinstance(base, V): raise Refuse('subscript of non-tuple')
             try: return base.items[k]
@@ -231,6 +239,7 @@ class FnTranslator:
             if e.keywords: raise Refuse('keyword arguments')
             if f in ('int',) and len(args) == 1 and isinstance(args[0], S): return args[0]
             if f in ('np.asarray', 'np.array', 'tuple') and len(args) == 1 and isinstance(args[0], V): return args[0]
+            if f == 'np.asarray' and len(args) == 1 and isinstance(args[0], Obj): return args[0]   # array-like keeps its attributes
             if f == 'len' and len(args) == 1 and isinstance(args[0], V):
                 n = len(args[0].items); return S(f'({n} : Int)', const=n)
             if f in ('max', 'min', 'np.max', 'np.min'):
@@ -238,7 +247,12 @@ class FnTranslator:
                 if len(args) != 2 or not all(isinstance(a, S) for a in args): raise Refuse('max/min need two ints')
                 return S(f'({f.split(".")[-1]} {args[0].e} {args[1].e})')
             if f == 'slice' and len(args) == 2: return V(args)
+<<<<<<< HEAD
             if f == 'np.array_equal' and len(args) == 2: return self.cmp('==', args[0], args[1])
+=======
+            if f == 'any' and len(args) == 1 and isinstance(args[0], V) and args[0].items and all(isinstance(x, B) for x in args[0].items):
+                return B('(' + ' || '.join(x.e for x in args[0].items) + ')')
+>>>>>>> wE
             if f == 'np.all' and len(args) == 1:
                 a = args[0]
                 if isinstance(a, B): return a
